@@ -84,17 +84,20 @@ Qed.
 (* vector<double>{1, NaN, 2} *)
 Definition f26_witness : rj := RArr [RDbl 0x3FF0000000000000; RDbl 0x7FF8000000000000; RDbl 0x4000000000000000].
 
-Lemma finalize_refuted : exists d, ~ finalize_reports finalize_json d.
+(* the current code: full strength *)
+Lemma finalize_checked_reports d : finalize_reports finalize_json d.
+Proof. unfold finalize_reports, finalize_json. destruct (accept d) as [ok ev]. cbn. intros ->. reflexivity. Qed.
+
+(* the code before the repair of F26 falsified it, exactly through non-finite doubles *)
+Lemma finalize_unchecked_refuted : exists d, ~ finalize_reports finalize_json_unchecked d.
 Proof. exists f26_witness. unfold finalize_reports. intros H. specialize (H eq_refl). discriminate. Qed.
 
-Lemma finalize_outside d : has_nonfinite d = false -> finalize_reports finalize_json d.
+Lemma finalize_unchecked_outside d : has_nonfinite d = false -> finalize_reports finalize_json_unchecked d.
 Proof. intros H Hf. rewrite (accept_ok d H) in Hf. discriminate. Qed.
 
-Lemma finalize_checked_reports d : finalize_reports finalize_json_checked d.
-Proof. unfold finalize_reports, finalize_json_checked. destruct (accept d) as [ok ev]. cbn. intros ->. reflexivity. Qed.
-
-Example f26_document : finalize_json f26_witness = FDoc [WTok TLBrack; WDbl 0x3FF0000000000000; WTok TComma].
-Proof. reflexivity. Qed.
+Example f26_document : finalize_json f26_witness = FError /\
+  finalize_json_unchecked f26_witness = FDoc [WTok TLBrack; WDbl 0x3FF0000000000000; WTok TComma].
+Proof. split; reflexivity. Qed.
 
 (* ================================================================== the order on names *)
 
@@ -170,20 +173,6 @@ Fixpoint ty_wf (t : ty) : bool :=
   | _ => true
   end.
 
-(* a map key with an embedded U+0000 (finding F42) *)
-Fixpoint nul_key (t : ty) (v : val) {struct t} : bool :=
-  match t, v with
-  | TyVec e, VArr l => existsb (nul_key e) l
-  | TyMap e, VObj m => existsb (fun kv => existsb (N.eqb 0) (fst kv) || nul_key e (snd kv)) m
-  | TyObj fields, VObj m =>
-    (fix go (fs : list (list N * fkind * ty)) (ms : list (list N * val)) : bool :=
-       match fs, ms with
-       | (_, _, ft) :: fs', (_, fv) :: ms' => nul_key ft fv || go fs' ms'
-       | _, _ => false
-       end) fields m
-  | _, _ => false
-  end.
-
 Fixpoint val_nonfinite (v : val) : bool :=
   match v with
   | VDbl b => is_nonfinite b
@@ -198,12 +187,6 @@ Proof.
   - inversion H. constructor.
   - destruct (f x) as [y|] eqn:E; [|discriminate]. destruct (opt_map f l) as [ys|] eqn:E2; [|discriminate].
     inversion H; subst. constructor; [exact E | apply IH; reflexivity].
-Qed.
-
-Lemma c_str_id k : existsb (N.eqb 0) k = false -> c_str k = k.
-Proof.
-  induction k as [|c k IH]; [reflexivity|]. cbn [existsb c_str]. intros H. apply orb_false_iff in H. destruct H as [H1 H2].
-  rewrite N.eqb_sym, H1. f_equal. apply IH. exact H2.
 Qed.
 
 Lemma map_insert_append k v acc :
@@ -226,17 +209,17 @@ Section RoundTrip.
   Variable i2d : Z -> N.
   Variable o : opts.
 
-  Definition rt_ok (t : ty) : Prop := forall v d, has_type t v = true -> nul_key t v = false ->
+  Definition rt_ok (t : ty) : Prop := forall v d, has_type t v = true ->
     save_inner t v = Some d -> load_inner i2d o t d = Loaded v.
 
   Lemma rt_vec e : rt_ok e -> rt_ok (TyVec e).
   Proof.
-    intros IH v d Ht Hn Hs. destruct v; try discriminate. cbn [has_type nul_key] in Ht, Hn.
+    intros IH v d Ht Hs. destruct v; try discriminate. cbn [has_type] in Ht.
     cbn [save_inner] in Hs. destruct (opt_map (save_inner e) l) as [ds|] eqn:E; [|discriminate]. inversion Hs; subst. clear Hs.
     apply opt_map_spec in E. cbn [load_inner].
     induction E as [|x y l ds Hxy _ IHl]; [reflexivity|].
-    cbn in Ht, Hn. apply andb_true_iff in Ht. destruct Ht as [Ht1 Ht2]. apply orb_false_iff in Hn. destruct Hn as [Hn1 Hn2].
-    rewrite (IH x y Ht1 Hn1 Hxy). rewrite (IHl Ht2 Hn2). reflexivity.
+    cbn in Ht. apply andb_true_iff in Ht. destruct Ht as [Ht1 Ht2].
+    rewrite (IH x y Ht1 Hxy). rewrite (IHl Ht2). reflexivity.
   Qed.
 
   (* the loop of the map loader, named *)
@@ -245,7 +228,7 @@ Section RoundTrip.
       match ms with
       | [] => Loaded (VObj acc)
       | (k, _) :: r =>
-        let ck := c_str k in
+        let ck := k in
         match find_member dm ck with
         | None => go r (map_insert ck (default e) acc)
         | Some x =>
@@ -261,14 +244,14 @@ Section RoundTrip.
   Proof. reflexivity. Qed.
 
   Lemma map_go_ok e dm : forall (ms : list (list N * rj)) (vs : list (list N * val)),
-    Forall2 (fun kd kv => fst kd = fst kv /\ existsb (N.eqb 0) (fst kv) = false /\
+    Forall2 (fun kd kv => fst kd = fst kv /\
                           find_member dm (fst kv) = Some (snd kd) /\ load_inner i2d o e (snd kd) = Loaded (snd kv)) ms vs ->
     forall acc : list (list N * val), keys_sorted (map fst acc ++ map fst vs) = true ->
     map_go e dm ms acc = Loaded (VObj (acc ++ vs)).
   Proof.
-    induction 1 as [|[k d] [k' v] ms vs [Hk [Hz [Hf Hl]]] _ IH]; intros acc Hs.
+    induction 1 as [|[k d] [k' v] ms vs [Hk [Hf Hl]] _ IH]; intros acc Hs.
     - rewrite app_nil_r. reflexivity.
-    - cbn [fst snd] in *. subst k'. cbn [map_go]. rewrite (c_str_id k Hz), Hf, Hl.
+    - cbn [fst snd] in *. subst k'. cbn [map_go]. rewrite Hf, Hl.
       assert (Hins : map_insert k v acc = acc ++ [(k, v)]).
       { apply map_insert_append. clear -Hs. induction acc as [|[a va] acc IHa]; [constructor|].
         cbn [map app fst] in Hs. destruct (keys_sorted_cons _ _ Hs) as [H1 H2]. constructor.
@@ -306,7 +289,7 @@ Section RoundTrip.
 
   Lemma rt_map e : rt_ok e -> rt_ok (TyMap e).
   Proof.
-    intros IH v d Ht Hn Hs. destruct v; try discriminate. cbn [has_type nul_key] in Ht, Hn.
+    intros IH v d Ht Hs. destruct v; try discriminate. cbn [has_type] in Ht.
     apply andb_true_iff in Ht. destruct Ht as [Ht Hsort].
     cbn [save_inner] in Hs.
     destruct (opt_map (fun kv : list N * val => option_map (fun d0 : rj => (fst kv, d0)) (save_inner e (snd kv))) m) as [dm|] eqn:E; [|discriminate].
@@ -317,19 +300,17 @@ Section RoundTrip.
     pose proof (find_member_sorted (save_inner e) m dm F1 Hsort) as F2.
     rewrite (map_go_ok e dm dm m) with (acc := []).
     - reflexivity.
-    - clear -IH Ht Hn F1 F2.
+    - clear -IH Ht F1 F2.
       assert (G : forall m' dm', Forall2 (fun kv kd => fst kd = fst kv /\ save_inner e (snd kv) = Some (snd kd)) m' dm' ->
                  Forall2 (fun kd kv => fst kd = fst kv /\ find_member dm (fst kv) = Some (snd kd)) dm' m' ->
                  forallb (fun kv => forallb scalarb (fst kv) && has_type e (snd kv)) m' = true ->
-                 existsb (fun kv => existsb (N.eqb 0) (fst kv) || nul_key e (snd kv)) m' = false ->
-                 Forall2 (fun kd kv => fst kd = fst kv /\ existsb (N.eqb 0) (fst kv) = false /\
+                 Forall2 (fun kd kv => fst kd = fst kv /\
                           find_member dm (fst kv) = Some (snd kd) /\ load_inner i2d o e (snd kd) = Loaded (snd kv)) dm' m').
-      { induction 1 as [|[k v] [k' d] m' dm' [Hk Hsv] _ IHG]; intros H2 H3 H4; [constructor|].
-        inversion H2 as [|? ? ? ? [_ Hfm] H2']; subst. cbn [fst snd forallb existsb] in *.
+      { induction 1 as [|[k v] [k' d] m' dm' [Hk Hsv] _ IHG]; intros H2 H3; [constructor|].
+        inversion H2 as [|? ? ? ? [_ Hfm] H2']; subst. cbn [fst snd forallb] in *.
         apply andb_true_iff in H3. destruct H3 as [H3a H3b]. apply andb_true_iff in H3a. destruct H3a as [_ Hty].
-        apply orb_false_iff in H4. destruct H4 as [H4a H4b]. apply orb_false_iff in H4a. destruct H4a as [Hz Hnk].
         constructor; [|apply IHG; assumption].
-        repeat split; try assumption. apply (IH v d Hty Hnk Hsv). }
+        repeat split; try assumption. apply (IH v d Hty Hsv). }
       apply G; assumption.
     - cbn [map app]. exact Hsort.
   Qed.
@@ -344,12 +325,6 @@ Definition obj_ty := fix go (fs : list (list N * fkind * ty)) (ms : list (list N
   | _, _ => false
   end.
 
-Definition obj_nul := fix go (fs : list (list N * fkind * ty)) (ms : list (list N * val)) : bool :=
-  match fs, ms with
-  | (_, _, ft) :: fs', (_, fv) :: ms' => nul_key ft fv || go fs' ms'
-  | _, _ => false
-  end.
-
 Definition obj_save := fix go (fs : list (list N * fkind * ty)) (ms : list (list N * val)) : option (list (list N * rj)) :=
   match fs, ms with
   | [], [] => Some []
@@ -359,8 +334,6 @@ Definition obj_save := fix go (fs : list (list N * fkind * ty)) (ms : list (list
   end.
 
 Lemma has_type_obj fields m : has_type (TyObj fields) (VObj m) = obj_ty fields m.
-Proof. reflexivity. Qed.
-Lemma nul_key_obj fields m : nul_key (TyObj fields) (VObj m) = obj_nul fields m.
 Proof. reflexivity. Qed.
 Lemma save_inner_obj fields m : save_inner (TyObj fields) (VObj m) = option_map RObj (obj_save fields m).
 Proof. reflexivity. Qed.
@@ -409,31 +382,30 @@ Section RoundTripObj.
 
   Lemma obj_go_ok dm : forall fs ms ds,
     Forall (fun f => rt_ok i2d o (snd f)) fs ->
-    obj_ty fs ms = true -> obj_nul fs ms = false -> obj_save fs ms = Some ds ->
+    obj_ty fs ms = true -> obj_save fs ms = Some ds ->
     (forall k d, In (k, d) ds -> find_member dm k = Some d) ->
     obj_go dm fs = Loaded (VObj ms) /\ map fst ds = map (fun f => fst (fst f)) fs.
   Proof.
-    induction fs as [|[[k fk] ft] fs IH]; intros ms ds Hrt Hty Hnul Hsv Hfind.
+    induction fs as [|[[k fk] ft] fs IH]; intros ms ds Hrt Hty Hsv Hfind.
     - destruct ms; [|discriminate]. cbn in Hsv. inversion Hsv; subst. split; reflexivity.
     - destruct ms as [|[k' fv] ms]; [cbn in Hty; discriminate|].
       inversion Hrt as [|? ? Hrt1 Hrt2]; subst. cbn [snd] in Hrt1.
       cbn [obj_ty] in Hty. apply andb_true_iff in Hty. destruct Hty as [Hty Hty2]. apply andb_true_iff in Hty. destruct Hty as [Hk Hty1].
-      cbn [obj_nul] in Hnul. apply orb_false_iff in Hnul. destruct Hnul as [Hn1 Hn2].
       cbn [obj_save] in Hsv. destruct fk; [|discriminate].
       destruct (save_inner ft fv) as [d|] eqn:Es; [|discriminate].
       destruct (obj_save fs ms) as [ds'|] eqn:Es2; [|discriminate]. inversion Hsv; subst. clear Hsv.
       apply key_eqb_eq in Hk. subst k'.
-      destruct (IH ms ds' Hrt2 Hty2 Hn2 Es2) as [IH1 IH2].
+      destruct (IH ms ds' Hrt2 Hty2 Es2) as [IH1 IH2].
       { intros k0 d0 Hin. apply Hfind. right. exact Hin. }
       split; [|cbn [map fst]; rewrite IH2; reflexivity].
-      cbn [obj_go]. rewrite (Hfind k d (or_introl eq_refl)). rewrite (Hrt1 fv d Hty1 Hn1 Es). rewrite IH1. reflexivity.
+      cbn [obj_go]. rewrite (Hfind k d (or_introl eq_refl)). rewrite (Hrt1 fv d Hty1 Es). rewrite IH1. reflexivity.
   Qed.
 
   Lemma rt_obj fields : names_distinct (map (fun f => fst (fst f)) fields) = true ->
     Forall (fun f => rt_ok i2d o (snd f)) fields -> rt_ok i2d o (TyObj fields).
   Proof.
-    intros Hd Hrt v d Ht Hn Hs. destruct v; try discriminate.
-    rewrite has_type_obj in Ht. rewrite nul_key_obj in Hn. rewrite save_inner_obj in Hs.
+    intros Hd Hrt v d Ht Hs. destruct v; try discriminate.
+    rewrite has_type_obj in Ht. rewrite save_inner_obj in Hs.
     destruct (obj_save fields m) as [ds|] eqn:Es; [|discriminate]. cbn in Hs. inversion Hs; subst. clear Hs.
     rewrite load_obj.
     (* the names of the saved members are the field names, hence distinct *)
@@ -444,7 +416,7 @@ Section RoundTripObj.
         destruct m as [|[k' fv] m]; [cbn in Es; discriminate|]. cbn [obj_save] in Es.
         destruct (save_inner ft fv); [|discriminate]. destruct (obj_save fs m) as [ds'|] eqn:E2; [|discriminate].
         inversion Es; subst. cbn [map fst]. rewrite (IH m ds' E2). reflexivity. }
-    destruct (obj_go_ok ds fields m ds Hrt Ht Hn Es) as [G _].
+    destruct (obj_go_ok ds fields m ds Hrt Ht Es) as [G _].
     - apply find_member_distinct. rewrite Hkeys. exact Hd.
     - exact G.
   Qed.
@@ -452,11 +424,11 @@ Section RoundTripObj.
   Lemma rt_all t : ty_wf t = true -> rt_ok i2d o t.
   Proof.
     induction t as [ | | k | | | e IH | e IH | fields IH ] using ty_ind'; intros Hwf.
-    - intros v d Ht _ Hs. destruct v; try discriminate. cbn in Hs. inversion Hs. reflexivity.
-    - intros v d Ht _ Hs. destruct v; try discriminate. cbn in Hs. inversion Hs. reflexivity.
-    - intros v d Ht _ Hs. destruct v; try discriminate. cbn in Hs. inversion Hs. cbn in Ht |- *. rewrite Ht. reflexivity.
-    - intros v d Ht _ Hs. destruct v; try discriminate. cbn in Hs. inversion Hs. reflexivity.
-    - intros v d Ht _ Hs. destruct v; try discriminate. cbn in Hs. inversion Hs. reflexivity.
+    - intros v d Ht Hs. destruct v; try discriminate. cbn in Hs. inversion Hs. reflexivity.
+    - intros v d Ht Hs. destruct v; try discriminate. cbn in Hs. inversion Hs. reflexivity.
+    - intros v d Ht Hs. destruct v; try discriminate. cbn in Hs. inversion Hs. cbn in Ht |- *. rewrite Ht. reflexivity.
+    - intros v d Ht Hs. destruct v; try discriminate. cbn in Hs. inversion Hs. reflexivity.
+    - intros v d Ht Hs. destruct v; try discriminate. cbn in Hs. inversion Hs. reflexivity.
     - apply rt_vec, IH. exact Hwf.
     - apply rt_map, IH. exact Hwf.
     - cbn [ty_wf] in Hwf. apply andb_true_iff in Hwf. destruct Hwf as [H1 H2]. apply rt_obj; [exact H1|].
@@ -467,19 +439,18 @@ End RoundTripObj.
 
 (* ---------------------------------------------------------------- the round trip of SaveObject / LoadObject *)
 
-(* H_rj (tested on every run, not proved): a DOM the writer accepts is reproduced by RapidJSON's
-   write + parse; a truncated text is a parse error *)
-Definition roundtrip_json (i2d : Z -> N) (o : opts) (t : ty) (v : val) : option outcome :=
+(* H_rj (tested on every run, not proved): a DOM the writer accepts is reproduced by RapidJSON's write + parse.
+   SaveObject raises an exception when the writer refuses the DOM. *)
+Inductive rt := SaveRaises | LoadedBack (r : outcome).
+
+Definition roundtrip_json (i2d : Z -> N) (o : opts) (t : ty) (v : val) : option rt :=
   match save_json t v with
   | None => None
-  | Some d => Some (if fst (accept d) then load_json i2d o t d else Err EParse)
+  | Some d => Some (match finalize_json d with FError => SaveRaises | FDoc _ => LoadedBack (load_json i2d o t d) end)
   end.
 
-(* F28: a root-level uint32_t above INT32_MAX *)
-Definition f28_class (t : ty) (v : val) : bool :=
-  match t, v with TyInt U32, VInt z => (2147483647 <? z)%Z | _, _ => false end.
-
-Definition json_defect (t : ty) (v : val) : bool := val_nonfinite v || nul_key t v || f28_class t v.
+(* C01 for one value: the value comes back, or the save fails with an exception *)
+Definition rt_good (v : val) (r : rt) : Prop := r = SaveRaises \/ r = LoadedBack (Ok v).
 
 Lemma save_nonfinite t : forall v d, save_inner t v = Some d -> has_nonfinite d = val_nonfinite v.
 Proof.
@@ -503,41 +474,52 @@ Proof.
       inversion Es; subst. cbn [existsb snd]. cbn [snd] in Hf. rewrite (Hf fv d Ed), (IHf m ds' E2). reflexivity.
 Qed.
 
-Lemma save_json_inner t v : f28_class t v = false -> has_type t v = true -> save_json t v = save_inner t v.
+Lemma save_json_inner t v : has_type t v = true -> save_json t v = save_inner t v.
 Proof.
-  intros Hf Ht. destruct t; try reflexivity. destruct v; try (cbn in Ht; discriminate). cbn [has_type] in Ht.
+  intros Ht. destruct t; try reflexivity. destruct v; try (cbn in Ht; discriminate). cbn [has_type] in Ht.
   unfold save_json, save_scalar_root. cbn [save_inner save_scalar_inner].
-  destruct k; try reflexivity; f_equal; f_equal; unfold wrap32, in_range, ity_min, ity_max in *; cbn in Hf; lia.
+  destruct k; try reflexivity; f_equal; f_equal; unfold wrap32, wrapu32, in_range, ity_min, ity_max in *; lia.
 Qed.
 
-Theorem json_roundtrip_outside i2d o t v : ty_wf t = true -> has_type t v = true -> json_defect t v = false ->
-  forall r, roundtrip_json i2d o t v = Some r -> r = Ok v.
+(* full strength: the value comes back or the save raises; it raises only for a value with a non-finite double *)
+Theorem json_roundtrip i2d o t v : ty_wf t = true -> has_type t v = true ->
+  forall r, roundtrip_json i2d o t v = Some r ->
+  rt_good v r /\ (val_nonfinite v = false -> r = LoadedBack (Ok v)).
 Proof.
-  intros Hwf Ht Hd r Hr. unfold json_defect in Hd. apply orb_false_iff in Hd. destruct Hd as [Hd Hf28].
-  apply orb_false_iff in Hd. destruct Hd as [Hnf Hnul].
-  unfold roundtrip_json in Hr. rewrite (save_json_inner t v Hf28 Ht) in Hr.
+  intros Hwf Ht r Hr.
+  unfold roundtrip_json in Hr. rewrite (save_json_inner t v Ht) in Hr.
   destruct (save_inner t v) as [d|] eqn:Es; [|discriminate]. inversion Hr; subst. clear Hr.
-  rewrite (accept_ok d); [|rewrite (save_nonfinite t v d Es); exact Hnf].
-  unfold load_json. rewrite (rt_all i2d o t Hwf v d Ht Hnul Es). reflexivity.
+  pose proof (save_nonfinite t v d Es) as Hnf.
+  assert (L : load_json i2d o t d = Ok v). { unfold load_json. rewrite (rt_all i2d o t Hwf v d Ht Es). reflexivity. }
+  unfold finalize_json. destruct (accept d) as [ok ev] eqn:Ea. destruct ok.
+  - rewrite L. split; [right; reflexivity | intros _; reflexivity].
+  - split; [left; reflexivity|]. intros Hv. rewrite <- Hnf in Hv. pose proof (accept_ok d Hv) as H. rewrite Ea in H. discriminate.
 Qed.
 
 Definition mkT := mkOpts true true.
 
-(* F28, F26 and F42 as counterexamples of the full statement *)
-Lemma json_roundtrip_refuted i2d :
-  (exists t v, ty_wf t = true /\ has_type t v = true /\ roundtrip_json i2d mkT t v = Some (Err EOverflow)) /\
-  (exists t v, ty_wf t = true /\ has_type t v = true /\ roundtrip_json i2d mkT t v = Some (Err EParse)) /\
-  (exists t v v', ty_wf t = true /\ has_type t v = true /\ roundtrip_json i2d mkT t v = Some (Ok v') /\ v' <> v).
-Proof.
-  split; [|split].
-  - exists (TyInt U32), (VInt 4000000000). repeat split.
-  - exists (TyVec TyDbl), (VArr [VDbl 0x3FF0000000000000; VDbl 0x7FF8000000000000; VDbl 0x4000000000000000]). repeat split.
-  - exists (TyMap TyStr), (VObj [([97; 0], VStr [120])]), (VObj [([97], VStr [])]). repeat split. discriminate.
-Qed.
+(* regression cases of repaired findings: a map key with an embedded U+0000 (F42), also with a container element (F42c);
+   a NaN inside an array makes the save raise (F26) *)
+Example json_roundtrip_nul_key i2d :
+  roundtrip_json i2d mkT (TyMap TyStr) (VObj [([97; 0], VStr [120]); ([98], VStr [121])]) =
+    Some (LoadedBack (Ok (VObj [([97; 0], VStr [120]); ([98], VStr [121])]))) /\
+  roundtrip_json i2d mkT (TyMap (TyMap TyStr)) (VObj [([97; 0], VObj [])]) = Some (LoadedBack (Ok (VObj [([97; 0], VObj [])]))).
+Proof. split; reflexivity. Qed.
+
+Example json_roundtrip_nan i2d :
+  roundtrip_json i2d mkT (TyVec TyDbl) (VArr [VDbl 0x3FF0000000000000; VDbl 0x7FF8000000000000; VDbl 0x4000000000000000]) = Some SaveRaises.
+Proof. reflexivity. Qed.
+
+(* every integer type at the root, extremes included (the former finding F28 is repaired: SetUint for unsigned) *)
+Example json_roundtrip_root_ints i2d :
+  roundtrip_json i2d mkT (TyInt U32) (VInt 4294967295) = Some (LoadedBack (Ok (VInt 4294967295))) /\
+  roundtrip_json i2d mkT (TyInt I32) (VInt (-2147483648)) = Some (LoadedBack (Ok (VInt (-2147483648)))) /\
+  roundtrip_json i2d mkT (TyInt U64) (VInt 18446744073709551615) = Some (LoadedBack (Ok (VInt 18446744073709551615))).
+Proof. repeat split; reflexivity. Qed.
 
 Example json_roundtrip_mix_example i2d :
   roundtrip_json i2d mkT (TyMap (TyVec (TyInt I64))) (VObj [([97], VArr [VInt (-9223372036854775808); VInt 7]); ([98; 233], VArr [])]) =
-  Some (Ok (VObj [([97], VArr [VInt (-9223372036854775808); VInt 7]); ([98; 233], VArr [])])).
+  Some (LoadedBack (Ok (VObj [([97], VArr [VInt (-9223372036854775808); VInt 7]); ([98; 233], VArr [])]))).
 Proof. reflexivity. Qed.
 
 (* ================================================================== what loading depends on (C08) *)
@@ -582,3 +564,33 @@ Lemma load_class_member_order i2d o fields m1 a b m2 : key_eqb (fst a) (fst b) =
 Proof.
   intros Hab. unfold load_json. rewrite !load_obj, (obj_go_swap i2d o fields m1 a b m2 Hab). reflexivity.
 Qed.
+
+(* ================================================================== save then load, XML, at the DOM level *)
+
+(* H_px (tested on every run, not proved): what pugixml's parser (parse_default | parse_ws_pcdata_single) hands back for
+   a document that pugixml wrote from this DOM: the DOM itself, except that a carriage return in character data comes
+   back as a line feed (saved_view) *)
+Definition roundtrip_xml (dtoa17 : N -> list N) (xstrtod : list N -> option N) (o : opts) (key : option (list N)) (t : ty) (v : val)
+  : option outcome :=
+  option_map (fun d => load_xml xstrtod o key t (saved_view d)) (save_xml dtoa17 key t v).
+
+(* the full statement (every well-typed value comes back) fails in the model of the current code:
+   J41, a carriage return silently becomes a line feed *)
+Lemma xml_roundtrip_refuted dtoa17 xstrtod :
+  roundtrip_xml dtoa17 xstrtod mkT None (TyVec TyStr) (VArr [VStr [97; 13; 98]]) = Some (Ok (VArr [VStr [97; 10; 98]])).
+Proof. reflexivity. Qed.
+
+(* the former findings F29, F29a, F29w are repaired: an empty container below the root, a class with attributes only
+   inside a container, a white-space-only string *)
+Example xml_roundtrip_repaired dtoa17 xstrtod :
+  roundtrip_xml dtoa17 xstrtod mkT None (TyVec (TyVec (TyInt I32))) (VArr [VArr [VInt 1]; VArr []]) = Some (Ok (VArr [VArr [VInt 1]; VArr []])) /\
+  roundtrip_xml dtoa17 xstrtod mkT None (TyVec ty_attronly) (VArr [VObj [([120], VInt 1); ([116; 121; 112; 101], VStr [82])]]) =
+    Some (Ok (VArr [VObj [([120], VInt 1); ([116; 121; 112; 101], VStr [82])]])) /\
+  roundtrip_xml dtoa17 xstrtod mkT None (TyVec TyStr) (VArr [VStr [32]; VStr [97]; VStr []]) = Some (Ok (VArr [VStr [32]; VStr [97]; VStr []])).
+Proof. repeat split; reflexivity. Qed.
+
+Example xml_roundtrip_example dtoa17 xstrtod :
+  roundtrip_xml dtoa17 xstrtod mkT (Some [83]) (TyMap (TyVec ty_attr))
+    (VObj [([107], VArr [VObj [([97], VInt (-5)); ([115], VStr [60; 34; 10]); ([98], VBool true); ([117], VInt 18446744073709551615); ([118], VInt 7); ([116], VStr [120; 32])]])]) =
+  Some (Ok (VObj [([107], VArr [VObj [([97], VInt (-5)); ([115], VStr [60; 34; 10]); ([98], VBool true); ([117], VInt 18446744073709551615); ([118], VInt 7); ([116], VStr [120; 32])]])])).
+Proof. reflexivity. Qed.
